@@ -361,8 +361,12 @@ def mala(
         # MALA drift term: step_size^2/2 * gradient
         drift = (step_size**2 / 2.0) * grad_val
 
-        # Gaussian noise term: step_size * N(0,1)
-        noise = step_size * normal.sample(0.0, 1.0)
+        # Gaussian noise term: step_size * N(0,1), one independent draw per
+        # coordinate of the choice (a scalar draw would be broadcast over an
+        # array-valued choice and move all of its coordinates together)
+        noise = step_size * normal.sample(
+            0.0, 1.0, sample_shape=jnp.shape(current_val)
+        )
 
         # Proposed value
         return current_val + drift + noise
@@ -482,9 +486,10 @@ def hmc(
     )
 
     # Helper functions for momentum
-    def sample_momentum(_):
-        """Sample momentum with same structure as reference value."""
-        return normal.sample(0.0, 1.0)
+    def sample_momentum(reference_val):
+        """Sample momentum with same structure as reference value: one independent
+        standard-normal draw per coordinate."""
+        return normal.sample(0.0, 1.0, sample_shape=jnp.shape(reference_val))
 
     def assess_momentum(momentum_val):
         """Compute log probability of momentum (standard normal)."""
